@@ -37,8 +37,13 @@ def handle(req):
     opts = req['opts']
     ans = {'texts': [], 'hashseed': os.environ.get('PYTHONHASHSEED')}
     first_set = []
+    same = None
     for prc in req.get('primes') or []:
         # the dump history of this interpreter
+        if prc and prc[0] == 'failsame':
+            same = values.build(req['recipe'], perm=req['perms'][0])
+            _failing_dump_then_repair(same, dumper, opts)
+            continue
         if prc and prc[0] == 'fail':
             try:
                 o = dict(opts)
@@ -52,6 +57,8 @@ def handle(req):
     for n, perm in enumerate(req['perms']):
         x = values.build(req['recipe'], perm=perm)
         if n == 0:
+            if same is not None:
+                x = same
             _find_set(x, first_set, set())
         t = dump(x, dumper, opts)
         ans['texts'].append(t)
@@ -80,6 +87,35 @@ def handle(req):
     ans['set_order'] = ','.join(first_set[0]) if first_set else ''
     del junk
     return ans
+
+
+def _failing_dump_then_repair(x, dumper, opts):
+    """Put something unrepresentable into x (as the value of the key that sorts first / as the first item), dump - which
+    fails - and take it out again: x is what it was, the library has seen it in a state that no longer exists."""
+    poison = (i for i in ())
+    o = dict(opts)
+    if 'version' in o:
+        o['version'] = tuple(o['version'])
+    if isinstance(x, dict) and x:
+        try:
+            k = sorted(x)[0]
+        except TypeError:
+            k = next(iter(x))
+        saved = x[k]
+        x[k] = poison
+        try:
+            yaml.dump(x, Dumper=getattr(yaml, dumper), **o)
+        except Exception:
+            pass
+        x[k] = saved
+    elif isinstance(x, list) and x:
+        saved = x[0]
+        x[0] = poison
+        try:
+            yaml.dump(x, Dumper=getattr(yaml, dumper), **o)
+        except Exception:
+            pass
+        x[0] = saved
 
 
 def _handdoc(spec):
